@@ -11,6 +11,7 @@ use crate::{graph::{G, GA}, observe::args_of, val::{panic_msg, row_json}};
 fn assert_send_sync<T: Send + Sync>() {}
 
 type Rows = Vec<BTreeMap<Arc<str>, FieldValue>>;
+const REPEATS: usize = 6;
 fn exec(iq: &Arc<IndexedQuery>, inst: &Value) -> Result<Rows, String> {
     let mut args = args_of(inst);
     args.retain(|k, _| iq.ir_query.variables.contains_key(k));
@@ -36,8 +37,13 @@ pub fn run(insts: &[Value], nthreads: usize) -> Value {
                 // every thread parses the schema itself (racing for the statics) but all share the first one published
                 let mine = Arc::new(Schema::parse(&sdl).expect("schema"));
                 let schema = shared_schema.get_or_init(|| mine).clone();
-                let mut out: Vec<Value> = vec![];
-                for (k, inst) in insts.iter().enumerate() {
+                let mut out: Vec<Value> = vec![Value::Null; insts.len()];
+                let mut shared_iq: Vec<Option<Arc<IndexedQuery>>> = vec![None; insts.len()];
+                // every thread walks the queries in its own rotation, so that DIFFERENT queries (and different rows of the same query)
+                // are in flight at the same moment; each shared compiled query is then executed several more times
+                let n = insts.len();
+                for j in 0..n {
+                    let k = (j + t * 5) % n; let inst = &insts[k];
                     let text = inst["text"].as_str().unwrap();
                     // compile concurrently against the shared schema ...
                     let own = parse(&schema, text);
@@ -45,8 +51,18 @@ pub fn run(insts: &[Value], nthreads: usize) -> Value {
                     // ... and execute the compiled query that is shared between all threads
                     let shared = shared_queries[k].get_or_init(|| own.as_ref().ok().cloned()).clone();
                     let rows = match &shared { Some(iq) => exec(iq, inst).map(|r| r.iter().map(row_json).collect::<Vec<_>>()), None => Err("rejected".to_string()) };
-                    out.push(json!({"ir": own_ser, "rows": match rows { Ok(r) => json!(r), Err(e) => json!({"err": e}) }}));
+                    out[k] = json!({"ir": own_ser, "rows": match rows { Ok(r) => json!(r), Err(e) => json!({"err": e}) }, "again": []});
+                    shared_iq[k] = shared;
                     if t % 2 == 1 { thread::yield_now(); }
+                }
+                for round in 0..REPEATS {
+                    for j in 0..n {
+                        let k = (j * 7 + t * 3 + round) % n;
+                        if let Some(iq) = &shared_iq[k] {
+                            let rows = exec(iq, &insts[k]).map(|r| r.iter().map(row_json).collect::<Vec<_>>());
+                            out[k]["again"].as_array_mut().unwrap().push(match rows { Ok(r) => json!(r), Err(e) => json!({"err": e}) });
+                        }
+                    }
                 }
                 out
             })).map_err(panic_msg)
@@ -68,7 +84,9 @@ pub fn run(insts: &[Value], nthreads: usize) -> Value {
                 Err(p) => { if k == 0 { bad.push(json!({"thread": t, "what": "panic", "err": p})); } }
                 Ok(v) => {
                     if v[k]["ir"].as_str().unwrap() != seq_ser { bad.push(json!({"thread": t, "inst": inst["id"], "what": "compiled query differs from the sequential one", "text": text})); }
-                    else if v[k]["rows"] != seq_rows { bad.push(json!({"thread": t, "inst": inst["id"], "what": "rows differ from the sequential run", "text": text})); }
+                    else if v[k]["rows"] != seq_rows || v[k]["again"].as_array().unwrap().iter().any(|r| *r != seq_rows) {
+                        bad.push(json!({"thread": t, "inst": inst["id"], "what": "rows differ from the sequential run", "text": text}));
+                    }
                 }
             }
         }
